@@ -179,6 +179,9 @@ def run_case(ctx, kind, stack, methods, prefixes, status_map, repeats):
             ctx.violation(f'document-not-encodable:{type(e).__name__}:{"openrpc" if kind == "openrpc" else "openapi"}', fam, cls, exception=e, **wit)
             return
     doc = docs[0]
+    if 'Xq9base' in json.dumps(doc):
+        ctx.violation('entry-carries-the-documentation-of-an-overridden-base-method', fam, cls, **wit)
+        return
     bad_ref = _malformed_ref(doc)
     if bad_ref:
         ctx.violation('malformed-$ref-member', fam, cls, where=bad_ref, **wit)
@@ -371,8 +374,17 @@ def finish(ctx):
                     continue
             elif errs:
                 stack_name = case[1]['stack']
-                ctx.violation(f'{kind}-document-fails-the-official-meta-schema:{stack_name}-extractor:{errs[0]["validator"]}', fam, vcls,
-                              errors=errs[:3], **wit)
+                # one mechanism per (failing keyword, part of the document): a defect in the errors list is another finding than
+                # one in the parameter schemas
+                seen_mech = set()
+                for er in errs:
+                    parts = er.get('deep_path', er['path']).split('/')
+                    where = ('errors' if 'errors' in parts else 'params-or-result' if ('params' in parts or 'result' in parts) else
+                             'components' if 'components' in parts else 'method-entry' if parts[:1] in (['methods'], ['paths']) else 'top-level')
+                    mech = f'{kind}-document-fails-the-official-meta-schema:{stack_name}-extractor:{er.get("deep_validator", er["validator"])}:{where}'
+                    if mech not in seen_mech:
+                        seen_mech.add(mech)
+                        ctx.violation(mech, fam, vcls, errors=[e for e in errs if e['path'] == er['path']][:2], **wit)
                 continue
             ctx.ok(fam + ':meta-schema', vcls)
     try:
@@ -398,7 +410,7 @@ def random_method(rng, idx, allow_view=True):
     m = {'name': f'm{idx}' if rng.random() < 0.7 else f'ns.meth{idx}', 'params': params, 'ret': rng.choice(specworld.RETURNS),
          'ctx': 'ctx' if rng.random() < 0.25 else None}
     if rng.random() < 0.55:
-        m['doc'] = {'params': rng.choice([True, True, 'bare', False]), 'returns': rng.choice([True, 'rtype', False]), 'raises': rng.sample(['A', 'B', 'C'], rng.choice([0, 0, 1, 2])),
+        m['doc'] = {'params': rng.choice([True, True, 'bare', False]), 'returns': rng.choice([True, 'rtype', False]), 'raises': rng.sample(['A', 'B', 'C', 'abstract', 'client', 'unknown'], rng.choice([0, 0, 1, 2, 3])),
                     'deprecated': rng.random() < 0.2}
     if rng.random() < 0.6:
         a = {}
@@ -474,6 +486,7 @@ def gen(ctx):
         [base('m0', annotate={'errors': ['A', 'C'], 'prefix': 'Px'}), base('m1', annotate={'errors': ['A'], 'prefix': 'Users_'})],
         [base('m0', doc={'raises': ['A', 'B'], 'params': True, 'returns': True, 'deprecated': True}), base('m1', doc={'params': True})],
         [base('m0', view=True), base('m1', view=True, ctx='ctx')],
+        [base('m0', doc={'raises': ['abstract', 'A'], 'params': True}), base('m1', doc={'raises': ['client', 'unknown'], 'returns': True})],
         [base('m0', doc={'params': 'bare', 'returns': 'rtype'}), base('m1', doc={'params': True, 'returns': 'rtype'})],
         [base('m0', doc={'params': 'bare'})],
         # names that differ only in their separators are different methods with their own components
